@@ -519,9 +519,9 @@ package main
 //@   modifies inferred
 //@   ensures [C06] tags_owner_only: t.cat == types.TopicCatGrp && old(t.owner) != asUid ==> err != nil && ref(t.tags) == old(ref(t.tags)) && len(t.tags) == old(len(t.tags))
 //@   assert at call store.TopicsPersistenceInterface.Update [C06] tags_store_owner_only: t.cat == types.TopicCatGrp && t.owner == asUid
-//@   assert at call store.TopicsPersistenceInterface.Update [C19] restricted_unchanged: restrictedTagsSame
-//@   assert at call store.UsersPersistenceInterface.Update [C19] restricted_unchanged_me: restrictedTagsSame
-//@   ensures [C19] cache_follows_check: ref(t.tags) != old(ref(t.tags)) ==> restrictedTagsSame && err == nil
+//@   assert at call store.TopicsPersistenceInterface.Update [C19] restricted_unchanged: restrictedTagsSame && restrictedTagsChecked == ref(tags)
+//@   assert at call store.UsersPersistenceInterface.Update [C19] restricted_unchanged_me: restrictedTagsSame && restrictedTagsChecked == ref(tags)
+//@   ensures [C19] cache_follows_check: ref(t.tags) != old(ref(t.tags)) ==> restrictedTagsSame && err == nil && ref(t.tags) == restrictedTagsChecked
 
 //@ func (t *Topic) replySetDesc(sess *Session, asUid types.Uid, asChan bool, authLevel auth.Level, msg *ClientComMessage) (err error)
 //@   ensures [C13] answered: outTotal > old(outTotal)
@@ -658,10 +658,13 @@ package main
 // Tags are set only after the restricted-namespace comparison with the current tags succeeded, and what is stored
 // is the normalised list.
 //@ ghost var restrictedTagsSame bool
+//@ ghost var restrictedTagsChecked int
 //@ func restrictedTagsEqual(oldTags []string, newTags []string, namespaces map[string]bool) (same bool)
 //@   trusted
-//@   modifies restrictedTagsSame
+//@   modifies restrictedTagsSame, restrictedTagsChecked
 //@   ensures restrictedTagsSame == same
+// (which list was compared: what is stored afterwards must be that very list, not an earlier or a later form of it)
+//@   ensures restrictedTagsChecked == ref(newTags)
 
 // The number of stored tags never exceeds the configured maximum (nor the number supplied).
 //@ func normalizeTags(src []string) (res types.StringSlice)
@@ -1051,3 +1054,9 @@ package main
 //@   modifies *
 //@   assert at call unsubAll [C14] after_inflight_settled: called("Wait") == old(called("Wait")) + 1
 //@   ensures [C14] topics_told_once: called("unsubAll") == old(called("unsubAll")) + 1
+
+// C19: a search term is rewritten to its prefixed form only by a validator that is configured to index its credentials
+// as tags.
+//@ func rewriteTag(orig string, countryCode string, withLogin bool) (res string)
+//@   modifies inferred
+//@   assert at call PreCheck [C19] only_validators_that_index: conf.addToTags
